@@ -538,5 +538,16 @@ for _p in ("C05", "C04", "C08"):
         "own close() (which returns Ok) the wire is whole frames ending with its Connection.Close.")
     PROPS[_p]["trusted_base"] = PROPS[_p]["trusted_base"] + L2_TRUSTED
 
+PROPS["C03"]["check_mods"].append("C03l2")
+PROPS["C03"]["drivers"].append({"name": "c03l2", "n_quick": 24, "n_thorough": 600, "timeout": 3000})
+PROPS["C03"]["rule"] += (" End to end (c03l2): a real connection, 1-2 channels with 1-2 consumers each from the "
+    "public API; the broker pushes 1 / 6 / 25 / 60 deliveries with bodies of 0 / 1 / 10 / 300 / 4088 / 5000 / 20000 "
+    "bytes in any partition (empty body frames included), four property sets, the channels' frames interleaved, the "
+    "byte stream pushed in pieces of 1-9 / 1-200 / up to 70000 bytes; every consumer's receiver is read out.")
+PROPS["C03"]["explanation"] += (" c03l2: what every public receiver yielded must equal what the Core model's consumer "
+    "queue accepted for the same frames (model) and what a plain reader of the frame stream assigns to that consumer, "
+    "field by field, in order, nothing missing and nothing extra (oracle).")
+PROPS["C03"]["trusted_base"] = PROPS["C03"]["trusted_base"] + L2_TRUSTED
+
 # properties not claimed, with the reason (kept current)
 NOT_APPLICABLE = {}
